@@ -132,6 +132,10 @@ func genC08(g *Rng, tier string, emit func(Op)) {
 			}
 			specs[i] = builderSpec{kp: kp, issuance: g.intn(3) == 0, nonrev: kp == ka && si%2 == 0, rng: g.coin()}
 		}
+		if si%2 == 0 {
+			// every other seed list has a disclosure proof with a non-revocation part for certain
+			specs[0] = builderSpec{kp: ka, nonrev: true, rng: specs[0].rng}
+		}
 		s := buildSession(g, specs, randSecret(g), false)
 		emit(listOp(s.keys, s.trees, s.ctx, s.nonce, false, nil, "seed", "accept"))
 		// a proof with a non-revocation part presented under a key WITHOUT revocation support (an
